@@ -78,7 +78,7 @@ private theorem wr_ie (s : Machine) (v : Nat) :
     simp only [peek, rR_ie, readVal, Intr.readIE, Intr.writeIE]⟩
 
 /-- a read of an echo address returns what its work-RAM address returns, in every state -/
-theorem peek_canon (s : Machine) (a : Nat) : peek R s a = peek R s (canon a) := by
+theorem c06_echo_read (s : Machine) (a : Nat) : peek R s a = peek R s (canon a) := by
   by_cases h : 0xe000 ≤ a ∧ a < 0xfe00
   · have hc : canon a = a - 0x2000 := by simp only [canon, if_pos h]
     have h1 : Oam.sub16 a 0xe000 = a - 0xe000 := sub16_eq h.1 (by omega)
@@ -215,7 +215,7 @@ private theorem rb_if (s : Machine) (v : Nat) (hv : v < 256) : ReadsBack s 0xff0
   exact b_if v hv
 
 /-- after `WriteLCDC(v)` the LCD is on exactly when bit 7 of `v` is set -/
-theorem lcdc_enabled (p : Lcd.Ppu) (v : Nat) : (Lcd.wLCDC p v).enabled = v.testBit 7 := by
+private theorem lcdc_enabled (p : Lcd.Ppu) (v : Nat) : (Lcd.wLCDC p v).enabled = v.testBit 7 := by
   simp only [Lcd.wLCDC, Lcd.lcdcSwitch, Lcd.enable, Lcd.disable]
   cases h1 : v.testBit 7 <;> cases h2 : p.enabled <;> simp [h2]
 
@@ -335,7 +335,7 @@ private theorem plain_holds {a v : Nat} (h : plainAddr a) (hv : v < 256) : (rule
 
 /-- MASTER read-back lemma: for EVERY address in scope, writing `v` and reading the address back gives what
     the documentation-shaped rule of that address says -/
-theorem readback_all (s : Machine) (a v : Nat) (ha : inScope a) (hv : v < 256) (hr : Ready s a) :
+theorem c06_readback_all (s : Machine) (a v : Nat) (ha : inScope a) (hv : v < 256) (hr : Ready s a) :
     ReadsBack s a v := by
   obtain ⟨hlt, hnc, hna⟩ := ha
   simp only [cartAddr, apuAddr] at hnc hna
@@ -406,7 +406,7 @@ theorem c06_plain (s : Machine) (a v : Nat) (ha : a < 0x10000) (hp : plainAddr a
   have hr : Ready s a := by
     simp only [plainAddr] at hp
     exact ⟨hd, fun e => by omega, fun e => by omega⟩
-  obtain ⟨s', r, hw, hpk, hh⟩ := readback_all s a v hin hv hr
+  obtain ⟨s', r, hw, hpk, hh⟩ := c06_readback_all s a v hin hv hr
   refine ⟨s', hw, ?_⟩
   rw [plain_rule hp] at hh
   have e : r &&& 0xff = v := by
@@ -441,9 +441,9 @@ theorem c06_echo (s : Machine) (a v : Nat) (h1 : 0xc000 ≤ a) (h2 : a < 0xde00)
     simp only [canon, if_pos (show 0xe000 ≤ a + 0x2000 ∧ a + 0x2000 < 0xfe00 by omega)]; omega
   constructor
   · obtain ⟨s', hw, hp⟩ := wr_wram s a v h1 (by omega)
-    exact ⟨s', hw, hp, by rw [peek_canon, hc]; exact hp⟩
+    exact ⟨s', hw, hp, by rw [c06_echo_read, hc]; exact hp⟩
   · obtain ⟨s', hw, hp⟩ := wr_echo s (a + 0x2000) v (by omega) (by omega)
-    exact ⟨s', hw, by rw [peek_canon, hc] at hp; exact hp, hp⟩
+    exact ⟨s', hw, by rw [c06_echo_read, hc] at hp; exact hp, hp⟩
 
 /-- FEA0–FEFF reads 00 while OAM is accessible, whatever is written there -/
 theorem c06_unusable (s : Machine) (a : Nat) (h1 : 0xfea0 ≤ a) (h2 : a < 0xff00) (hd : s.oam.dmaRunning = false) :
@@ -482,7 +482,7 @@ theorem c06_reg_readback (s : Machine) (v : Nat) (hv : v < 256) :
         ∧ r &&& (e.2.writable ||| e.2.forced) = (v &&& e.2.writable) ||| e.2.forced := by
   intro e he hr
   have hin := regTable_facts e he
-  obtain ⟨s', r, hw, hp, hh⟩ := readback_all s e.1 v hin.1 hv hr
+  obtain ⟨s', r, hw, hp, hh⟩ := c06_readback_all s e.1 v hin.1 hv hr
   refine ⟨s', r, hw, hp, ?_⟩
   rw [hin.2.1] at hh
   simp only [Rule.holds, Rule.readBack] at hh
@@ -553,7 +553,7 @@ private theorem reg_peek_total : ∀ k < 128, ¬ apuAddr (0xff00 + k) → ∀ s 
   · exact absurd e hna
 
 /-- a read of an address in scope never panics -/
-theorem peek_total (s : Machine) (b : Nat) (hb : inScope b) : ∃ r, peek R s b = some r := by
+theorem c06_read_total (s : Machine) (b : Nat) (hb : inScope b) : ∃ r, peek R s b = some r := by
   obtain ⟨hlt, hnc, hna⟩ := hb
   simp only [cartAddr] at hnc
   unfold peek
@@ -578,33 +578,8 @@ theorem peek_total (s : Machine) (b : Nat) (hb : inScope b) : ∃ r, peek R s b 
   · have e : b = 0xffff := by omega
     rw [e, rR_ie]; exact ⟨_, rfl⟩
 
-/-- the machine after a read reads the same everywhere (only the OAM-bug flag may have been set) -/
-theorem read_keeps (s : Machine) (h : H) (a b : Nat) (hb : b < 65536) :
-    peek R (readEff h s a) b = peek R s b
-    ∧ (readEff h s a).timer = s.timer ∧ (readEff h s a).ppu = s.ppu
-    ∧ (readEff h s a).oam.dmaRunning = s.oam.dmaRunning := by
-  by_cases hh : h = .oam
-  · subst hh
-    simp only [readEff]
-    cases hc : Oam.cpuRead s.oam (BitVec.ofNat 16 a) with
-    | none => exact ⟨rfl, rfl, rfl, rfl⟩
-    | some p =>
-      have hsh := Oam.cpuRead_shape hc
-      have hfl : p.1.dmaRunning = s.oam.dmaRunning ∧ p.1.oam = s.oam.oam ∧ p.1.dma = s.oam.dma := by
-        rcases hsh with e | ⟨_, _, e⟩ <;> rw [e] <;> exact ⟨rfl, rfl, rfl⟩
-      refine ⟨?_, rfl, rfl, hfl.1⟩
-      unfold peek
-      have hrb := range_read hb
-      generalize route R b = rb at hrb
-      refine fld_oam _ _ _ _ (fun e => ?_) (fun _ => hfl.2.2)
-      subst e
-      have r := rng_oam hrb
-      exact oam_val_congr _ _ b r.1 r.2 hfl.1 hfl.2.1
-  · have : readEff h s a = s := by cases h <;> first | rfl | exact absurd rfl hh
-    rw [this]; exact ⟨rfl, rfl, rfl, rfl⟩
-
 /-- what a bus write preserves: the TIMA reload flag, "PPU mode in 0..3", and (except for FF46) the DMA flag -/
-theorem write_inv (s s' : Machine) (a v : Nat) (ha : a < 65536) (hw : busWrite W s a v = some s') :
+private theorem write_inv (s s' : Machine) (a v : Nat) (ha : a < 65536) (hw : busWrite W s a v = some s') :
     s'.timer.reloading = s.timer.reloading ∧ (s.ppu.mode < 4 → s'.ppu.mode < 4)
     ∧ (a ≠ 0xff46 → s'.oam.dmaRunning = s.oam.dmaRunning) := by
   have hra := range_write ha
@@ -644,7 +619,7 @@ theorem write_inv (s s' : Machine) (a v : Nat) (ha : a < 65536) (hw : busWrite W
   all_goals exact ⟨rfl, id, fun _ => rfl⟩
 
 /-- a write to an address in scope never panics (outside the TIMA reload cycle, PPU mode in 0..3) -/
-theorem write_total (s : Machine) (a v : Nat) (ha : inScope a) (hv : v < 256)
+theorem c06_write_total (s : Machine) (a v : Nat) (ha : inScope a) (hv : v < 256)
     (hrel : s.timer.reloading = false) (hm : s.ppu.mode < 4) : ∃ s', busWrite W s a v = some s' := by
   by_cases ho : 0xfe00 ≤ a ∧ a < 0xff00
   · have ht := toNat16 (a := a) (by omega)
@@ -655,22 +630,22 @@ theorem write_total (s : Machine) (a v : Nat) (ha : inScope a) (hv : v < 256)
     · have hi : Oam.sub16 a 0xfe00 < 160 := by rw [sub16_eq ho.1 (by omega)]; omega
       simp only [if_pos hlo, Oam.st_eq hi, Option.map_some]; exact ⟨_, rfl⟩
     · simp only [if_neg hlo, Option.map_some]; exact ⟨_, rfl⟩
-  · obtain ⟨s', _, hw, _⟩ := readback_all s a v ha hv ⟨fun h => absurd h ho, fun _ => hrel, fun _ => hm⟩
+  · obtain ⟨s', _, hw, _⟩ := c06_readback_all s a v ha hv ⟨fun h => absurd h ho, fun _ => hrel, fun _ => hm⟩
     exact ⟨s', hw⟩
 
 /-! ### the history form -/
 
-theorem canon_cases (b : Nat) :
+private theorem canon_cases (b : Nat) :
     (0xe000 ≤ b ∧ b < 0xfe00 ∧ canon b = b - 0x2000) ∨ (¬ (0xe000 ≤ b ∧ b < 0xfe00) ∧ canon b = b) := by
   by_cases h : 0xe000 ≤ b ∧ b < 0xfe00
   · exact Or.inl ⟨h.1, h.2, by simp only [canon, if_pos h]⟩
   · exact Or.inr ⟨h, by simp only [canon, if_neg h]⟩
 
-theorem canon_scope {b : Nat} (hb : inScope b) : inScope (canon b) := by
+private theorem canon_scope {b : Nat} (hb : inScope b) : inScope (canon b) := by
   simp only [inScope, cartAddr, apuAddr] at hb ⊢
   rcases canon_cases b with ⟨h1, h2, e⟩ | ⟨h, e⟩ <;> rw [e] <;> omega
 
-theorem rule_canon (a : Nat) : ruleOf (canon a) = ruleOf a := by
+private theorem rule_canon (a : Nat) : ruleOf (canon a) = ruleOf a := by
   rcases canon_cases a with ⟨h1, h2, e⟩ | ⟨h, e⟩
   · rw [e, plain_rule (by simp only [plainAddr]; omega), plain_rule (by simp only [plainAddr]; omega)]
   · rw [e]
@@ -691,18 +666,18 @@ structure Rel (init : Nat → Nat) (x : Abs) (s : Machine) : Prop where
   dma : x.dma = false → s.oam.dmaRunning = false
   cells : ∀ b, inScope b → ∃ r, peek R s b = some r ∧ (expect init x b).holds r
 
-theorem rel_start (s : Machine) (h1 : s.timer.reloading = false) (h2 : s.ppu.mode < 4)
+private theorem rel_start (s : Machine) (h1 : s.timer.reloading = false) (h2 : s.ppu.mode < 4)
     (h3 : s.oam.dmaRunning = false) : Rel (initOf s) Abs.start s := by
   refine ⟨h1, h2, fun _ => h3, fun b hb => ?_⟩
-  obtain ⟨r, hr⟩ := peek_total s b hb
+  obtain ⟨r, hr⟩ := c06_read_total s b hb
   refine ⟨r, hr, ?_⟩
   have : expect (initOf s) Abs.start b = .exact (initOf s (canon b)) := by
     simp only [expect, Abs.start, Bool.false_eq_true, false_and, if_false, cellExpect]
   rw [this]
   show r = initOf s (canon b)
-  simp only [initOf, ← peek_canon, hr, Option.getD_some]
+  simp only [initOf, ← c06_echo_read, hr, Option.getD_some]
 
-theorem rel_read (init : Nat → Nat) (x : Abs) (s : Machine) (a : Nat) (h : Rel init x s) (ha : inScope a) :
+private theorem rel_read (init : Nat → Nat) (x : Abs) (s : Machine) (a : Nat) (h : Rel init x s) (ha : inScope a) :
     ∃ r s', busRead R s a = some (r, s') ∧ (expect init x a).holds r ∧ Rel init x s' := by
   obtain ⟨r, hr, hh⟩ := h.cells a ha
   refine ⟨r, readEff (route R a) s a, ?_, hh, ?_⟩
@@ -714,16 +689,16 @@ theorem rel_read (init : Nat → Nat) (x : Abs) (s : Machine) (a : Nat) (h : Rel
     rw [(hk b hb.1).1]
     exact h.cells b hb
 
-theorem rel_write (init : Nat → Nat) (x : Abs) (s : Machine) (a v : Nat) (h : Rel init x s) (ha : inScope a)
+private theorem rel_write (init : Nat → Nat) (x : Abs) (s : Machine) (a v : Nat) (h : Rel init x s) (ha : inScope a)
     (hv : v < 256) : ∃ s', busWrite W s a v = some s' ∧ Rel init (x.write a v) s' := by
-  obtain ⟨s', hw⟩ := write_total s a v ha hv h.rel h.mode
+  obtain ⟨s', hw⟩ := c06_write_total s a v ha hv h.rel h.mode
   have hinv := write_inv s s' a v ha.1 hw
   have hna : ¬ apuAddr a := ha.2.2
   refine ⟨s', hw, ⟨by rw [hinv.1]; exact h.rel, hinv.2.1 h.mode, fun hx => ?_, fun b hb => ?_⟩⟩
   · -- no transfer was started, now or before
     simp only [Abs.write, Bool.or_eq_false_iff, decide_eq_false_iff_not] at hx
     rw [hinv.2.2 hx.2]; exact h.dma hx.1
-  · obtain ⟨r', hr'⟩ := peek_total s' b hb
+  · obtain ⟨r', hr'⟩ := c06_read_total s' b hb
     by_cases hA : (x.write a v).dma = true ∧ 0xfe00 ≤ b ∧ b < 0xff00
     · exact ⟨r', hr', by simp only [expect, if_pos hA]; trivial⟩
     · have hE : expect init (x.write a v) b
@@ -736,7 +711,7 @@ theorem rel_write (init : Nat → Nat) (x : Abs) (s : Machine) (a v : Nat) (h : 
       by_cases hB1 : canon b = canon a
       · -- the written cell itself (through either of its addresses)
         rw [if_pos hB1]
-        have hpk : peek R s' b = peek R s' a := by rw [peek_canon s' b, peek_canon s' a, hB1]
+        have hpk : peek R s' b = peek R s' a := by rw [c06_echo_read s' b, c06_echo_read s' a, hB1]
         have hready : Ready s a := by
           refine ⟨fun ho => ?_, fun _ => h.rel, fun _ => h.mode⟩
           have hbo : 0xfe00 ≤ b ∧ b < 0xff00 := by
@@ -747,7 +722,7 @@ theorem rel_write (init : Nat → Nat) (x : Abs) (s : Machine) (a v : Nat) (h : 
             · exact absurd ⟨hdd, hbo⟩ hA
           simp only [Abs.write, Bool.or_eq_false_iff] at hd
           exact h.dma hd.1
-        obtain ⟨s2, r, hw2, hp2, hh⟩ := readback_all s a v ha hv hready
+        obtain ⟨s2, r, hw2, hp2, hh⟩ := c06_readback_all s a v ha hv hready
         rw [hw] at hw2; cases hw2
         refine ⟨r, by rw [hpk]; exact hp2, ?_⟩
         show (ruleOf (canon b)).holds v r
@@ -759,7 +734,7 @@ theorem rel_write (init : Nat → Nat) (x : Abs) (s : Machine) (a v : Nat) (h : 
           rw [if_neg hB2]
           have hcb := canon_scope hb
           have hfr : peek R s' b = peek R s b := by
-            rw [peek_canon s' b, peek_canon s b]
+            rw [c06_echo_read s' b, c06_echo_read s b]
             exact frame s s' a v (canon b) ha.1 hcb.1 hna hw hB2
           obtain ⟨r, hr, hh⟩ := h.cells b hb
           refine ⟨r, by rw [hfr]; exact hr, ?_⟩
@@ -772,7 +747,7 @@ theorem rel_write (init : Nat → Nat) (x : Abs) (s : Machine) (a v : Nat) (h : 
           exact hh
 
 /-- per-operation simulation, by induction over the history -/
-theorem refines_aux (init : Nat → Nat) : ∀ (ops : List BusOp) (x : Abs) (s : Machine), Rel init x s →
+private theorem refines_aux (init : Nat → Nat) : ∀ (ops : List BusOp) (x : Abs) (s : Machine), Rel init x s →
     (∀ op ∈ ops, admissible op) →
     ∃ outs s', runOps R W s ops = some (outs, s') ∧ Agrees outs (reads init x ops) := by
   intro ops
@@ -806,5 +781,35 @@ theorem c06_refines (s : Machine) (ops : List BusOp) (h1 : s.timer.reloading = f
     (h3 : s.oam.dmaRunning = false) (hops : ∀ op ∈ ops, admissible op) :
     ∃ outs s', runOps R W s ops = some (outs, s') ∧ Agrees outs (reads (initOf s) Abs.start ops) :=
   refines_aux (initOf s) ops Abs.start s (rel_start s h1 h2 h3) hops
+
+/-! ### non-vacuity: a concrete machine and history meet the hypotheses, and the specification says
+    something non-trivial about it -/
+
+/-- the machine right after power-on with an all-zero 32 KiB ROM-only cartridge -/
+def demo : Machine := powerOn (.none { rom := fun _ _ => 0, imgLen := 0x8000 }) false
+
+/-- write WRAM, read it through the echo; write IF, read it; write STAT and OBP0, read them; touch DIV -/
+def demoOps : List BusOp :=
+  [.wr 0xc000 0x12, .rd 0xe000, .wr 0xff0f 0xff, .rd 0xff0f, .wr 0xff41 0xff, .rd 0xff41, .wr 0xff48 0xff,
+   .rd 0xff48, .wr 0xff05 0x77, .wr 0xff04 0x55, .rd 0xff05, .rd 0xff04, .rd 0xff80]
+
+example : demo.timer.reloading = false ∧ demo.ppu.mode < 4 ∧ demo.oam.dmaRunning = false
+    ∧ (∀ op ∈ demoOps, admissible op) := by
+  refine ⟨rfl, by decide, rfl, by decide⟩
+
+/-- what the specification expects of the reads of that history: the echo read returns 12; IF reads
+    (FF AND 1F) OR E0 on all bits; STAT (FF AND 78) OR 80 on bits 3-7; OBP0 on bits 2-7; TIMA is unspecified
+    after the DIV write (falling edge); DIV reads 00; an untouched HRAM cell reads its start value -/
+example : reads (fun c => c % 251) Abs.start demoOps =
+    [.rule ⟨0xff, 0x00, 0xff⟩ 0x12, .rule (reg 0x1f 0xe0) 0xff, .rule (reg 0x78 0x80) 0xff, .rule (reg 0xfc 0x00) 0xff,
+     .any, .rule ⟨0x00, 0x00, 0xff⟩ 0x55, .exact (0xff80 % 251)] := by
+  decide +kernel
+
+example : plainAddr 0xfe10 ∧ (0xfe00 ≤ 0xfe10 ∧ 0xfe10 < 0xff00 → demo.oam.dmaRunning = false) :=
+  ⟨by decide, fun _ => rfl⟩
+example : unmappedAddr 0xff03 ∧ unmappedAddr 0xff4d ∧ unmappedAddr 0xff7f ∧ ¬ unmappedAddr 0xff0f := by decide
+example : ∀ e ∈ regTable, Ready demo e.1 := by
+  intro e _
+  exact ⟨fun _ => rfl, fun _ => rfl, fun _ => by decide⟩
 
 end Tetro.C06
